@@ -5,6 +5,10 @@ CLAIMS = {
   note="Trusted: pyvc executor semantics (A1-A6), z3, Python ints as SMT Int. `stop` is treated as inclusive in both conventions (as the module documents). Stored bins on intervals are covered by constructor contracts where listed in the evidence.",
   technique="contract-based deductive verification (AST->VC symbolic execution + z3), native replay"),
 }
+CLAIMS["C15"] = dict(
+  text="Proof by complete decision of finite domains plus symbolic proof of the enum algebras: the real Codon/Alphabet/constants code is executed by the verifier's interpreter on all 16^3 IUPAC triplets, all alphabets and letters, all strand triples, and every clause is a ground obligation against the NCBI/IUPAC specification embedded in the contract file; CDSFrame.shift, from_int and Strand.from_int are proved for ALL integers by z3. Every ground case is also re-run under CPython and compared (exhaustive cross-check).",
+  note="Trusted: pyvc executor semantics, the embedded NCBI table-1/11 strings and IUPAC tables (specification), Codon.__new__ singleton summary (contracts/lib.py). Biotype is read as the literal [name, value] list passed to the functional Enum API.",
+  technique="contract-based verification: exhaustive ground obligations over finite domains + z3 for integer-quantified enum laws")
 NOT_APPLICABLE = {f"C{i:02d}": PENDING for i in range(1, 21)}
 NOT_APPLICABLE["C12"] = ("statement is about Biopython-serialised GenBank text, an independent reader and io/genbank/parser.py, "
                          "which cannot be imported here; no contract on BioCantor functions within reach expresses it (DESIGN 5/C12, 8)")
